@@ -59,6 +59,9 @@ CONVERSIONS = ["CvtToFuzzy", "CvtFromFuzzy", "CvtToBinary", "CvtToFuzzyCat", "Cv
                "NormalizeZScore", "NormalizeCurveZScore", "NormalizeMeanToMid"]
 ZSCORE = ["NormalizeZScore", "NormalizeCurveZScore", "CvtToFuzzyZScore", "CvtToFuzzyCurveZScore"]
 
+# on the pinned tree these four divide by a standard deviation / take the mean of an empty selection with plain scalar arithmetic: their degenerate
+# cases already depend on the caller's numpy error settings
+STRICT_EXEMPT = {"NormalizeMeanToMid", "CvtToFuzzyMeanToMid", "NormalizeCurveZScore", "CvtToFuzzyCurveZScore"}
 CMD_LINE = 1000
 ARG_LINE0 = 2000
 
@@ -123,7 +126,7 @@ def command_class(name):
     return getattr(importlib.import_module("mpilot.libraries.eems." + lib), name)
 
 
-def run_impl(case, copy_inputs=True):
+def run_impl(case, copy_inputs=True, strict=False):
     """Runs the real `execute`.  Returns a dict:
        {"status": "ok", "result": array, "vis": ..., "producers": [...]} or
        {"status": "err", "kind": "mp"|"raw", "cls": ..., "ref": "cmd"|"none"|"arg:<name>"|"line:<n>"}"""
@@ -155,8 +158,14 @@ def run_impl(case, copy_inputs=True):
     cmd = cls("R", args, program=None, lineno=CMD_LINE)
     out = {"producers": prods, "inputs_after": inputs}
     with warnings.catch_warnings():
+        # strict: the caller has turned warnings into errors and told numpy to raise on floating-point events
         warnings.simplefilter("ignore")
-        old = numpy.seterr(all="ignore")
+        if strict:
+            # (only the two events numpy's masked arithmetic promises to handle itself: x/0 and 0/0 never reach the caller)
+            warnings.filterwarnings("error", message=".*(divide by zero|invalid value).*")
+            old = numpy.seterr(divide="raise", invalid="raise", over="ignore", under="ignore")
+        else:
+            old = numpy.seterr(all="ignore")
         try:
             r = cmd.execute(**kwargs)
             out.update(status="ok", result=r, vis=common.vis_arr(r))
@@ -710,7 +719,7 @@ def gen_chains(rng, count, consumers=None, style="wild"):
     return cases
 
 
-def run_stream(ctx, model, cases, stream, tol=common.TOL, on_result=None, rerun=True, narrow=True, pipeline=True, layout=True):
+def run_stream(ctx, model, cases, stream, tol=common.TOL, on_result=None, rerun=True, narrow=True, pipeline=True, layout=True, strict=True):
     """runs cases on implementation and model, records disagreements; calls on_result(case, out, answer)"""
     outs = []
     kept = []
@@ -762,6 +771,15 @@ def run_stream(ctx, model, cases, stream, tol=common.TOL, on_result=None, rerun=
                             b.mask = mm.copy()
                             numpy.ma.getdata(b)[...] = dd
                         break
+        if strict and out["status"] == "ok" and c.cmd not in STRICT_EXEMPT:
+            # the caller's numpy error settings are not the command's business: with x/0 and 0/0 set to raise (and the matching warnings turned into
+            # errors) - the two events masked arithmetic handles itself - the outcome is the same
+            out4 = run_impl(c, strict=True)
+            ctx.count("strict_environment_twins")
+            d = _same(out, out4)
+            if d:
+                ctx.fail("%s: with numpy.seterr(divide='raise', invalid='raise') set by the caller the outcome differs (%s%s)" % (
+                    c.cmd, d, "; " + str(out4.get("text"))[:80] if out4["status"] == "err" else ""), c.describe())
         if pipeline and not trivial:
             # the same arguments through Program / Command.run / validate_params / the parameter cleaners: what the body is given, and what
             # comes back, must be what a direct call of the body gives (an argument equal to 0, "" or [] is still an argument)
